@@ -116,3 +116,41 @@ Definition judge_shared (c : excl * list vkind * list srule * outcome (list issu
   let dom := nodupV vs && nodupN (map r_key rules) in
   let nontriv := match impl1 with Ok [] => false | _ => true end in
   bits (oissues2_eqb (validate_twice E vs rules) impl1 impl2) spec dom nontriv.
+
+(* ---------- suite tags: tag validators as observers ---------- *)
+From PS Require Import Model.TagValidators.
+
+Definition tissue_eqb (a b : tissue) : bool :=
+  match a, b with
+  | TIFormat x, TIFormat y | TITlp x, TITlp y | TIDup x, TIDup y | TINamespace x, TINamespace y => tag_eqb x y
+  | _, _ => false
+  end.
+Definition tcount (i : tissue) (l : list tissue) : nat := length (filter (tissue_eqb i) l).
+Definition kcount (v : tvkind) (vs : list tvkind) : nat := length (filter (tvkind_eqb v) vs).
+
+(* how often an issue has to occur - computed from the source tags and the validator classes only,
+   independent of any order *)
+Definition exp_count (vs : list tvkind) (tags : list tag) (i : tissue) : nat :=
+  match i with
+  | TIFormat t => (count_tag t tags * kcount TFormat vs * (if fmt_ok t then 0 else 1))%nat
+  | TITlp t =>
+      (count_tag t tags *
+       (if str_eqb (t_ns t) s_tlp then
+          length (filter (fun v => match tlp_allowed v with
+                                   | Some allowed => negb (in_strs (t_name t) allowed)
+                                   | None => false end) vs)
+        else 0))%nat
+  | TIDup t => (kcount TDup vs * (if (1 <? count_tag t tags)%nat then 1 else 0))%nat
+  | TINamespace t => (count_tag t tags * kcount TNamespace vs * (if in_strs (t_ns t) ns_allowed then 0 else 1))%nat
+  end.
+
+(* (validator instances in iteration order, source tags, implementation issues, the rule's tags after
+   validation as rule.to_dict() shows them) *)
+Definition judge_tags (c : list tvkind * list tag * list tissue * list tag) : N :=
+  let '(vs, tags, out, after) := c in
+  let m := validate_tags vs tags in
+  let agree := list_eqb tissue_eqb (fst m) out && list_eqb tag_eqb (snd m) after in
+  let candidates := flat_map (fun t => [TIFormat t; TITlp t; TIDup t; TINamespace t]) (tags ++ after) in
+  let spec := list_eqb tag_eqb tags after &&
+              forallb (fun i => (tcount i out =? exp_count vs tags i)%nat) (out ++ candidates) in
+  bits agree spec true (match out with [] => false | _ => true end).
